@@ -598,6 +598,82 @@ func runC06(c *Ctx) {
 	c.ctxDerivation("R06.6")
 	c.rule("R06.7", "peer control frames are registered as activity, so the idle timer does not close a healthy connection (which would cancel every handler context on it)")
 	c.activitySignalRule("R06.7")
+
+	// ---- R06.9
+	c.rule("R06.9", "cancel messages are executed in arrival order with the calls they refer to (one in-order executor; never handled on the reader's goroutine)")
+	c.arrivalOrderRule("R06.9")
+
+	// ---- R06.8
+	c.ruleOpt("R06.8", "the library imposes no deadline of its own on a call in flight (HTTP client timeout, derived timeout contexts)")
+	c.noOwnDeadline("R06.8")
+}
+
+// noOwnDeadline: on a healthy connection only the caller may end a call. A deadline the library adds
+// by itself — the Timeout of the http.Client it sends with, or a WithTimeout/WithDeadline context on the
+// client call path — aborts the request when it expires, and the server then cancels the handler's
+// context although the caller's context is still live.
+func (c *Ctx) noOwnDeadline(rule string) {
+	p, r := c.P, c.R
+	for _, fn := range p.Funcs {
+		allInstrsRaw(fn, func(in ssa.Instruction) {
+			st, ok := in.(*ssa.Store)
+			if !ok {
+				return
+			}
+			fa, ok := st.Addr.(*ssa.FieldAddr)
+			if !ok {
+				return
+			}
+			f := fieldOfAddr(fa)
+			if f == nil || f.Name() != "Timeout" {
+				return
+			}
+			pt, ok := fa.X.Type().Underlying().(*types.Pointer)
+			if !ok || !isNamed(pt.Elem(), "net/http", "Client") {
+				return
+			}
+			c.bad(rule, fmt.Sprintf("%s: http.Client.Timeout", fname(fn)), c.ipos(in), "the library sets an overall timeout on the HTTP client it sends requests with: a call that stays in flight longer is aborted, and the server cancels the handler's context although the caller did not cancel")
+		})
+	}
+	if r.FnCall != nil {
+		seen := map[*ssa.Function]bool{}
+		var fns []*ssa.Function
+		add := func(f *ssa.Function) {
+			for _, g := range c.region(f) {
+				if !seen[g] {
+					seen[g] = true
+					fns = append(fns, g)
+				}
+			}
+		}
+		add(r.FnCall)
+		// request senders kept in struct fields (doRequest closures)
+		for _, fn := range p.Funcs {
+			if pkgOf(fn) != p.Root.Pkg {
+				continue
+			}
+			for _, q := range fn.Params {
+				if q.Type() == types.Type(r.TCreq) {
+					add(fn)
+				}
+			}
+		}
+		for _, g := range fns {
+			allInstrsRaw(g, func(in ssa.Instruction) {
+				ci, ok := in.(*ssa.Call)
+				if !ok {
+					return
+				}
+				switch calleeName(ci) {
+				case "context.WithTimeout", "context.WithDeadline", "context.WithTimeoutCause", "context.WithDeadlineCause":
+					c.bad(rule, fmt.Sprintf("%s: derived deadline", fname(g)), c.ipos(in), "the client call path derives a context with a deadline of its own: the call is cancelled although its caller did not cancel")
+				}
+			})
+		}
+	}
+	if c.ruleN[rule] == 0 {
+		c.ok(rule, "no library-imposed deadline", "-", "no store to http.Client.Timeout, no WithTimeout/WithDeadline on the client call path")
+	}
 }
 
 func (c *Ctx) isParamCopyCtx(v ssa.Value, fn *ssa.Function) bool {
